@@ -2,10 +2,12 @@
    Statements only; proofs in Proofs/SessionFacts.v.  The handler of a decoded request computes a
    core operation, and [answer] turns the core's result into the terminal message; subscription
    events and deferred lock answers are routed with the transaction id registered at the request.
-   Not modelled: the interleaving of answers of different requests on the wire (forwarding tasks),
-   which the property does not constrain. *)
+   The interleaving of answers and subscription traffic on the wire (serve loop and forwarding tasks share the
+   socket writer's channel) is modelled in Model/Conc.v; what holds of it under every schedule is at the end. *)
+From Coq Require Import NArith List.
+Import ListNotations.
 From WB Require Import Base.Str Base.Json Model.Key Model.Store Model.Entry Model.Core Model.Codec Model.Auth
-  Model.Session Proofs.SessionFacts.
+  Model.Session Proofs.SessionFacts Model.Conc Proofs.ConcFacts.
 
 Theorem C13_one_terminal_answer :
   forall m r, r <> RCrash ->
@@ -73,3 +75,23 @@ Example C13_nonvacuous :
   snd (sstep w (SMsg 0 (MGet 7 [110;111]))) = [(0, SErr 7 E_NoSuchValue [])] /\
   snd (sstep w (SMsg 0 (MSet 8 [107] JNull))) = [(0, SAck 8)].
 Proof. vm_compute. split; reflexivity. Qed.
+
+(* ---- under every schedule of the tasks around the core (Model/Conc.v, Proofs/ConcFacts.v) ---- *)
+(* exactly one answer per request, the answer to that very request, in the order of the session's requests *)
+Theorem C13_answers_under_every_schedule :
+  forall es sn,
+    ans_proj (c_wire (crun es) sn) ++ done_of (c_task (crun es) sn) = mine sn (sres init (c_served (crun es))).
+Proof. exact conc_answers. Qed.
+Print Assumptions C13_answers_under_every_schedule.
+
+(* an event of a subscription reaches the socket only after the answer that carries the subscription's receiver *)
+Theorem C13_events_only_after_the_ack :
+  forall es sn a i x b, c_wire (crun es) sn = a ++ WItem i x :: b -> exists o, In (WAns o (RSub i)) a.
+Proof. exact conc_ack_first. Qed.
+Print Assumptions C13_events_only_after_the_ack.
+
+(* instance numbers are handed out once: an answer [RSub i] names a channel no earlier answer named *)
+Theorem C13_receivers_are_fresh :
+  forall l s, NoDup (handed (sres s l)).
+Proof. intros l s. exact (proj2 (handed_fresh l s)). Qed.
+Print Assumptions C13_receivers_are_fresh.
